@@ -15,5 +15,18 @@ Definition zlist_eqb (a b : list Z) : bool :=
 
 Definition rcase_ok (c : rcase) : bool := zlist_eqb (rebalance (mk_cls (rcls c)) (riw c)) (robs c).
 
-Definition mismatches (cs : list rcase) : list N :=
-  map rid (filter (fun c => negb (rcase_ok c)) cs).
+(* blue/green through the real annotations updater: configured weights as parsed from the
+   annotation, mode (true = pod), endpoints (draining?, matched group indices), and the
+   weights the real code wrote on the endpoints *)
+Record bcase := { bid : N; biw : Z; bpod : bool; bws : list Z; beps : list (bool * list nat); bobs : list Z }.
+
+Definition bcase_ok (c : bcase) : bool :=
+  zlist_eqb (if bpod c then bg_pod_weights (bws c) (beps c) else bg_server_weights (bws c) (biw c) (beps c)) (bobs c).
+
+Inductive anycase := R (c : rcase) | B (c : bcase).
+
+Definition mismatches (cs : list anycase) : list N :=
+  flat_map (fun a => match a with
+                     | R c => if rcase_ok c then [] else [rid c]
+                     | B c => if bcase_ok c then [] else [bid c]
+                     end) cs.
